@@ -32,8 +32,9 @@ RULE = (
     "{glyf_colr_0, glyf_colr_1, picosvg}. Oracle (read back from the binary): every member of the family draws the same stored outline "
     "(COLR: one outline glyph after resolving COLRv0 composite layer glyphs; picosvg: one <path>, all other members <use> it); with "
     "tolerance -1 the same input must store one outline per member. One case in eight uses an em of 8192/16384 units with an em height up to "
-    "1.85 upem, so that copies lie 16 000-30 000 units apart; a case is rejected (counted) only when the affine between some ordered pair of "
-    "members, computed from the generator's own matrices, has an entry >= 32767 (the 16.16 limit of the statement's exception). Non-trivial: a copy rotated by an angle not within 1 degree of a "
+    "1.85 upem, so that copies lie 16 000-30 000 units apart; when the affine between some ordered pair of members, computed from the generator's own "
+    "matrices, has an entry >= 32767 (the 16.16 limit of the statement's exception) sharing is not demanded, but the build with reuse on must still "
+    "succeed whenever the build with reuse off does. Non-trivial: a copy rotated by an angle not within 1 degree of a "
     "multiple of 90 degrees, or mirrored."
 )
 ASSUMPTIONS = ["fontTools decompiles COLR/glyf/SVG correctly", "copies are exact to double precision before printing with 6 decimals"]
@@ -49,7 +50,8 @@ def setup_worker():
 @st.composite
 def family_case(draw, tier):
     cfg = draw(font_config(FORMATS, transforms=False, max_upem=4096))
-    if draw(st.integers(0, 7)) == 0:
+    huge = draw(st.integers(0, 7)) == 0
+    if huge:
         # a huge em: copies end up 16 000 - 30 000 font units apart, the upper half of what a 16.16 translation can hold
         up = draw(st.sampled_from([8192, 16384]))
         asc = int(up * draw(st.floats(0.8, 1.0)))
@@ -85,8 +87,9 @@ def family_case(draw, tier):
         elif kind == "mirror":
             ang = draw(st.floats(-180, 180))
             lin = amul(rotate(ang), (-1.0, 0.0, 0.0, 1.0, 0.0, 0.0))
-        cx = vb[0] + draw(st.floats(0.2, 0.8)) * vb[2]
-        cy = vb[1] + draw(st.floats(0.2, 0.8)) * vb[3]
+        lo, hi = (0.06, 0.94) if huge else (0.2, 0.8)  # huge em: both sides of the 16.16 limit are reached
+        cx = vb[0] + draw(st.floats(lo, hi)) * vb[2]
+        cy = vb[1] + draw(st.floats(lo, hi)) * vb[3]
         m = achain(scale(size), lin, translate(cx, cy))
         members.append({"kind": kind, "angle": ang, "m": [float(x) for x in m], "cmds": transform_cmds(unit, m), "glyph": draw(st.integers(0, nglyph - 1)) if k else 0})
     sources = []
@@ -226,6 +229,7 @@ def judge(case):
     # "unless the placing transform cannot be represented": 16.16 holds |x| < 32768. Which member becomes the donor is the
     # code's choice, so the case is only judged when the affine between *every* ordered pair of members (and its inverse,
     # needed for a gradient fill) fits; that includes everything up to the format's real limit.
+    beyond = False
     if all("m" in p for p in fam):
         from ..geom import ainv
         from ..ref_svg import em_transform
@@ -238,10 +242,8 @@ def judge(case):
                     A = achain(ainv(F), ainv(tuple(a["m"])), tuple(b["m"]), F)
                     worst = max(worst, max(abs(x) for x in A))
         v.extra["max_affine_entry"] = worst
-        if worst >= 32767.0:
-            v.rejected = "placing transform beyond 16.16"
-            return v
-        if worst > 16384:
+        beyond = worst >= 32767.0
+        if worst > 16384 and not beyond:
             v.cls("affine-entry>16384")
     on = build.build_font(cfg, srcs)
     off = build.build_font(dict(cfg, reuse_tolerance=-1), srcs)
@@ -251,6 +253,10 @@ def judge(case):
             v.rejected = "both builds raise " + type(e).__name__  # e.g. gradient geometry beyond int16 at a large em scale
             return v
         v.fail("build-error", type(e).__name__, {"error": repr(e)[:300]})
+        return v
+    if beyond:
+        # the statement's exception: such copies may be stored separately - but the build above had to succeed all the same
+        v.rejected = "placing transform beyond 16.16 (build succeeds)"
         return v
     t_on = _family_tags(on.font, case, v, "on")
     t_off = _family_tags(off.font, case, v, "off")
